@@ -137,6 +137,15 @@ PROPS["C03"] = {
                     "the last good patch is tracked from a success report after which every record of its number matches the artifact in place; outside damage to it or to the state files ends the tracking (as the property says)"],
 }
 
+PROPS["C18"] = {
+    "modules": ["C18"], "required_theorems": ["C18_holds", "step18", "step_run", "step_idle"], "monitors": ["C18"],
+    "fields": ["ret", "pj", "pd", "sj"],
+    "campaign": camp([("lifecycle", 500), ("mixed", 400), ("rollback", 300), ("chaos", 200), ("damage", 150)],
+                     [("lifecycle", 8000), ("mixed", 5000), ("rollback", 5000), ("chaos", 3000), ("damage", 3000), ("signing", 2000), ("release", 2000)]),
+    "assumptions": ["as C03 (one configured key; the server does not re-issue the last good number with other bytes) for the 'last good patch before launch start' clause",
+                    "the running patch is the selection a launch start recorded as booting while every record of that number matched the artifact in place; things that happen to that patch itself end the tracking: its boot is reported failed, the server rolls it back or re-issues (re-installs) its number, its artifact or the state files are damaged from outside, the release changes, the process ends"],
+}
+
 # Properties whose theorems are still being written: monitors + correspondence only (not in MANIFEST).
 for _p, _mon, _camp in [
     ("C01", ["C01"], camp(LIFE_Q, LIFE_T)), ("C03", ["C03"], camp(LIFE_Q, LIFE_T)), ("C05", ["C05"], camp(LIFE_Q, LIFE_T)),
